@@ -79,6 +79,11 @@ func (r *simRC) Dial(ctx context.Context) error {
 	}
 	r.dialed = true
 	w := r.w
+	if r.dead {
+		// like the real region client, a connection object that was closed before
+		// its first Dial never touches the network
+		return region.ErrClientClosed
+	}
 	w.cl.Dialed(r.addr)
 	if w.closedAt >= 0 && w.quiet {
 		w.lateWork = append(w.lateWork, "dial "+r.addr)
